@@ -243,7 +243,8 @@ def scan_common(path, timeouts, flags, ops):
         raise Unclassified(f"{cls}.{name} not found")
 
     # StreamIO.__init__: self.<kw>_timeout = <expr>
-    init = method("StreamIO", "__init__")
+    from .normalize import if_assign_to_ifexp
+    init = if_assign_to_ifexp(method("StreamIO", "__init__"))  # if/else stores read as conditional expressions
     seen = set()
     for st in init.body:
         if isinstance(st, ast.Assign) and len(st.targets) == 1 and _is_self_attr(st.targets[0]):
@@ -285,7 +286,12 @@ def scan_common(path, timeouts, flags, ops):
                 elif n.func.attr == "append":
                     if len(n.args) != 3 or not isinstance(n.args[0], ast.Constant):
                         raise Unclassified(f"ThrottleStreamIO.{name}: append() arguments")
-                    if ast.unparse(n.args[2]) != "start":
+                    # the third argument is the local bound to `_now()` in this method (whatever it is called)
+                    stamps = [
+                        t.id for a in ast.walk(m) if isinstance(a, ast.Assign) and ast.unparse(a.value) == "_now()"
+                        for t in a.targets if isinstance(t, ast.Name)
+                    ]
+                    if len(stamps) != 1 or not isinstance(n.args[2], ast.Name) or n.args[2].id != stamps[0]:
                         raise Unclassified(f"ThrottleStreamIO.{name}: append() start argument")
                     appends.append(n.args[0].value)
         if len(waits) != 1 or len(appends) != 1:
